@@ -6,10 +6,20 @@
    areas by the determinant, moments by the documented powers), and the absolute tolerances are
    exactly the scale dependence (pt_eq under scaling compares with tol/k).  The vertical-ray count
    is not rotation invariant edge by edge (C12_ray_not_rotation_invariant); its sum over a closed
-   chain is.  The operator pipeline as a whole (T(A) op T(B) vs T(A op B)) is checked by
-   correspondence/oracle on transformed cases -- partial. *)
+   chain is.
+   THE OPERATOR PIPELINE AS A WHOLE is translation-equivariant (Lemmas/Translate.v, a logical
+   relation "the right one is the left one moved by v, up to == on coordinates" carried through
+   every function of the model, ~120 lemmas): for polygonal shapes whose curves are non-empty
+   closed chains (both decidable, both necessary -- machine-checked counterexamples for an open
+   chain and for an empty curve), T(A) op T(B) is T(A op B) for | & - ^ ~ and copy, as DATA (same
+   kinds, same curves in the same order, coordinates moved), T(p) in T(A) = p in A, T(B) in T(A)
+   = B in A, T(A) == T(B) = (A == B), error outcomes included.  (The model does not round
+   coordinates; the library's Point2D does above denominators of 1e9 -- the check sets those
+   runs aside, harness/props/c12.py.)  Rotations and scalings of the whole pipeline remain with
+   correspondence/oracle on transformed cases: scalings change what the absolute tolerances see
+   (C12_refuted_tolerance), rotations change the vertical-ray bookkeeping edge by edge. *)
 From Coq Require Import List.
-From SV Require Import Spec.Spec Lemmas.Quadrature Lemmas.Equivariance Lemmas.Affine.
+From SV Require Import Spec.Spec Lemmas.Quadrature Lemmas.Equivariance Lemmas.Affine Lemmas.Translate.
 Open Scope Q_scope.
 
 Theorem C12_crossing_parameters : forall m11 m12 m21 m22 v f, aff_map m11 m12 m21 m22 v f ->
@@ -65,6 +75,63 @@ Proof. exact pt_eq_pscale. Qed.
 Theorem C12_tolerance_translation : forall v p q, pt_eq (padd p v) (padd q v) = pt_eq p q.
 Proof. exact pt_eq_translate. Qed.
 Print Assumptions C12_tolerance_scaling.
+
+(* ---- the whole pipeline under translations ---- *)
+Theorem C12_translate_or : forall v a b,
+  shape_lines a = true -> shape_chains a = true -> shape_lines b = true -> shape_chains b = true ->
+  res_rel (op3_moved v) (op_or a b) (op_or (move_shape v a) (move_shape v b)).
+Proof. exact op_or_translate. Qed.
+Theorem C12_translate_and : forall v a b,
+  shape_lines a = true -> shape_chains a = true -> shape_lines b = true -> shape_chains b = true ->
+  res_rel (op3_moved v) (op_and a b) (op_and (move_shape v a) (move_shape v b)).
+Proof. exact op_and_translate. Qed.
+Theorem C12_translate_sub : forall v a b,
+  shape_lines a = true -> shape_chains a = true -> shape_lines b = true -> shape_chains b = true ->
+  res_rel (op2_moved v) (op_sub a b) (op_sub (move_shape v a) (move_shape v b)).
+Proof. exact op_sub_translate. Qed.
+Theorem C12_translate_xor : forall v a b,
+  shape_lines a = true -> shape_chains a = true -> shape_lines b = true -> shape_chains b = true ->
+  res_rel (op3_moved v) (op_xor a b) (op_xor (move_shape v a) (move_shape v b)).
+Proof. exact op_xor_translate. Qed.
+Theorem C12_translate_not : forall v a, shape_lines a = true -> shape_chains a = true ->
+  res_rel (shape_moved v) (op_not a) (op_not (move_shape v a)).
+Proof. exact op_not_translate. Qed.
+Theorem C12_translate_point : forall v a, shape_lines a = true -> shape_chains a = true ->
+  forall p closed, contains_point (move_shape v a) (padd p v) closed = contains_point a p closed.
+Proof. exact contains_point_translate. Qed.
+Theorem C12_translate_contains : forall v a b,
+  shape_lines a = true -> shape_chains a = true -> shape_lines b = true -> shape_chains b = true ->
+  contains_shape (move_shape v a) (move_shape v b) = contains_shape a b.
+Proof. exact contains_shape_translate. Qed.
+Theorem C12_translate_eq : forall v a b,
+  shape_lines a = true -> shape_chains a = true -> shape_lines b = true -> shape_chains b = true ->
+  shape_eq (move_shape v a) (move_shape v b) = shape_eq a b.
+Proof. exact shape_eq_translate. Qed.
+(* ... also for the model's own in-place move *)
+Theorem C12_translate_or_move : forall v a b,
+  shape_lines a = true -> shape_chains a = true -> shape_lines b = true -> shape_chains b = true ->
+  res_rel (op3_moved v) (op_or a b) (op_or (map_points (move_pt v) a) (map_points (move_pt v) b)).
+Proof. exact op_or_translate_move_pt. Qed.
+Print Assumptions C12_translate_or.
+Print Assumptions C12_translate_and.
+Print Assumptions C12_translate_sub.
+Print Assumptions C12_translate_xor.
+Print Assumptions C12_translate_not.
+Print Assumptions C12_translate_point.
+Print Assumptions C12_translate_contains.
+Print Assumptions C12_translate_eq.
+(* both hypotheses are needed *)
+Example C12_translate_needs_closed :
+  let s := SC (CS [[(0, 0); (0, 1)]]) in
+  contains_point s (5, 5) true = true /\
+  contains_point (move_shape (1, 0) s) (padd (5, 5) (1, 0)) true = false.
+Proof. exact open_chain_not_translation_invariant. Qed.
+(* non-vacuity: two overlapping squares moved by (7/3, -5/2): an 8-segment union on both sides *)
+Example C12_translate_nonvacuous :
+  op_or exA exB = ex_lhs /\ op_or (move_shape exv exA) (move_shape exv exB) = ex_rhs /\
+  (exists r, ex_lhs = Ok r /\ length (concat (jordans (snd r))) = 8%nat) /\
+  res_rel (op3_moved exv) ex_lhs ex_rhs.
+Proof. exact op_or_translate_nonvacuous. Qed.
 
 Example C12_refuted_tolerance :
   pt_eq (0, 0) (tol9, 0) = true /\ pt_eq (pscale 2 (0, 0)) (pscale 2 (tol9, 0)) = false.
